@@ -67,6 +67,8 @@ REQUIRED_THEOREMS = [
     "manifold_preserved_sub6", "border_loops_preserved_quads3_sub6",
     # round 8: border loops through the fan and the quad cut
     "border_loops_preserved_fan_quad_cut",
+    # round 9: the vertex umbrella condition through the fan
+    "umbrella_preserved_fan",
 ]
 TRUSTED = [
     "Lean 4.33.0 kernel; axioms ⊆ {propext, Classical.choice, Quot.sound}",
@@ -1226,8 +1228,8 @@ MANIFEST = {
                    "list: split_double_boundary_edges_triangles (modelled, translated, bridged); orientation, border sides, border loops "
                    "and components for 1->3 quads and 1->6 on triangle meshes (1->6 under faces-share-at-most-one-edge); components for "
                    "the fan, triangulate_face, triangulate; the quad cut under 'diagonal not already a side'. NOT proved "
-                   "(oracle/correspondence only): the umbrella condition at vertices (full 2-manifoldness), border loops for the fan / "
-                   "quad cut, preservation of the counting hypotheses themselves by the operations (so the Euler theorems are per "
+                   "(oracle/correspondence only): the umbrella condition at vertices for operations other than the fan (proved for the fan: "
+                   "umbrella_preserved_fan; border loops for the fan / quad cut are proved too), preservation of the counting hypotheses themselves by the operations (so the Euler theorems are per "
                    "operation, not per sequence, for the set-rebuilding operations), prepare() and the caller's object stay "
                    "hand-modelled. Open finding: triangulating a polygon surface that is not a "
                    "regular complex."),
